@@ -111,6 +111,20 @@ def probe_source(repo=None):
               'ipr::impl::obj_sequence<ipr::impl::Enumerator>', 'ipr::impl::obj_list<ipr::impl::Token>',
               'ipr::Optional<ipr::Expr>', 'ipr::util::ref<const ipr::Expr>'):
         lines.append(f'template struct {t};')
+    # the ordered-set utility with a comparator whose result is a comparison category (`<=>`), not an int: the library's own
+    # comparators all return int, so a branch of the utility that depends on the result type would otherwise never be seen
+    lines += ['#include <compare>',
+              'namespace ipr_probe {',
+              '   inline std::strong_ordering by_address(const void* a, const void* b) { return std::compare_three_way{ }(a, b); }',
+              '   struct Cmp3 { std::strong_ordering operator()(const ipr::impl::Overload& a, const ipr::Name& b) const { return by_address(&a, &b); } };',
+              '   struct LinkCmp3 {',
+              '      std::strong_ordering operator()(const ipr::impl::overload_entry& a, const ipr::impl::overload_entry& b) const { return by_address(&a, &b); }',
+              '      std::strong_ordering operator()(const ipr::impl::overload_entry& a, const ipr::Type& b) const { return by_address(&a, &b); }',
+              '   };',
+              '   inline const void* touch(ipr::util::rb_tree::container<ipr::impl::Overload>& c, ipr::util::rb_tree::chain<ipr::impl::overload_entry>& l,',
+              '                            ipr::impl::overload_entry& n, const ipr::Name& nm, const ipr::Type& t)',
+              '   { l.insert(&n, LinkCmp3{ }); c.insert(nm, Cmp3{ }); return c.find(nm, Cmp3{ }) ? static_cast<const void*>(l.find(t, LinkCmp3{ })) : nullptr; }',
+              '}']
     return '\n'.join(lines) + '\n', classes
 
 
